@@ -105,6 +105,18 @@ func emit(run *vh.Run, h appdrv.History, tag string) ([]appdrv.Resp, string) {
 
 // twin runs the history with the injected transaction and checks the oracle.
 func twin(run *vh.Run, in injected, base []appdrv.Resp) {
+	// a random / truncated byte string may happen to decode (some signature recovers to some
+	// address and the protobuf prefix parses): then it is not malformed but a well-formed
+	// transaction of an unknown sender, and is judged as one
+	if in.Kind == "random" || in.Kind == "truncated" || in.Kind == "notbase64" {
+		if _, signer, ok := appdrv.DecodeTx(in.Tx); ok {
+			if c, _ := appdrv.ChainOf(in.Tx); c == in.History.Genesis.ChainID {
+				in.Kind = "outsider"
+				in.Hide = signer
+				run.Dist["inject:decodable-by-accident"]++
+			}
+		}
+	}
 	h2 := withInjection(in)
 	rs2, a2, err := appdrv.RunHistory(h2)
 	if err != nil {
